@@ -89,6 +89,20 @@ def gen_cases(tier, seed):
                         cid = "%s-W%d-%s-o%d-Z-m%d%d%d-plain-tz%s" % (edge, W, side, off, mask[0], mask[1], mask[2], tz)
                         cases.append({"id": cid, "sig": [edge, side, off, W, "Z", list(mask), 0, tz], "edge": edge, "W": W, "side": side, "off": off,
                                       "spelling": "Z", "mask": list(mask), "signed": 0, "frac": 0.0, "tz": tz})
+    # a Conditions element that carries its bounds and nothing else (no AudienceRestriction or other child)
+    for edge in ("cond-nooa", "cond-nb", "cond-nb-after-nooa", "scd-nooa", "session-nooa"):
+        for W in ((0, 180) if tier == "quick" else ALLOWANCES):
+            for side in ("reject", "accept"):
+                if edge.endswith("after-nooa") and side == "accept":
+                    continue
+                for off in ((2, 100000) if tier == "quick" else OFFSETS):
+                    if edge.endswith("after-nooa") and off != 2 and off != 1:
+                        continue
+                    cid = "%s-W%d-%s-o%d-Z-m111-plain-bare-conditions" % (edge, W, side, 1 if edge.endswith("after-nooa") else off)
+                    if any(c["id"] == cid for c in cases[-8:]):
+                        continue
+                    cases.append({"id": cid, "sig": [edge, side, off, W, "Z", [1, 1, 1], 0, "bare-conditions"], "edge": edge, "W": W, "side": side,
+                                  "off": 1 if edge.endswith("after-nooa") else off, "spelling": "Z", "mask": [1, 1, 1], "signed": 0, "frac": 0.0, "bare_conditions": 1})
     # the binding the response arrives over must not matter either: SOAP (back channel) and Redirect beside POST
     for arrive in ("soap", "redirect"):
         for edge in EDGES:
@@ -298,6 +312,11 @@ def _run_case(case, ctx):
         d = d.set_attr(scd, "NotBefore", s(b["scd-nb"], edge.startswith("scd-nb")))
     ast = d.find(xk.SAML, "AuthnStatement")[0]
     d = d.set_attr(ast, "SessionNotOnOrAfter", s(b["session-nooa"], edge == "session-nooa") if present["session-nooa"] else None)
+    if case.get("bare_conditions"):
+        cnd = d.find(xk.SAML, "Conditions")[0]
+        while cnd.children:
+            d = d.remove(cnd.children[0])
+            cnd = d.find(xk.SAML, "Conditions")[0]
     doc = d.text()
     if case["signed"]:
         doc = xk.sign_element(doc, xk.SAMLP, "Response", d.root.attrs["ID"], fed.key(0)[0], "rsa-sha256", fed.cert_body(0))
@@ -351,7 +370,7 @@ def _run_case(case, ctx):
     viol = []
     outcome = "accept" if accepted else "reject:" + (type(exc).__name__ if exc is not None else "None")
     desc = "edge %s %s side, offset %d, allowance %d, spelling %s, present %s%s: %s" % (edge, side, off, W, sp_, sorted(k for k, v in present.items() if v),
-                                                                                     (", arriving over " + case["arrive"]) if case.get("arrive") else "", outcome)
+                                                                                     ((", arriving over " + case["arrive"]) if case.get("arrive") else "") + (", Conditions without child elements" if case.get("bare_conditions") else ""), outcome)
     if accepted and must_reject:
         viol.append({"key": "C04/accepted-outside-validity-window:" + edge, "what": desc + " although " + "; ".join(reasons),
                      "detail": {"document": doc[:6000], "now": clock.iso(now)}})
